@@ -304,6 +304,14 @@ class DictSpec:
             op("d.pop(%r)" % k, m_pop(k))
         for k in K:
             op("d.pop(%r, 'D')" % k, m_pop(k, "D"))
+        # defaults drawn from the stored-value alphabet: the default can be the very object that is stored under the key
+        for k in K:
+            for dv in (1, None, 0):
+                op("d.pop(%r, %r)" % (k, dv), m_pop(k, dv))
+        if not multi:
+            op("d['a'] = 0", m_set("a", 0))
+            op("d['a'] = None", m_set("a", None))
+            op("d['b'] = None", m_set("b", None))
         op("d.popitem()", m_popitem())
         for k in K:
             op("d.setdefault(%r)" % k, m_setdefault(k, None))
@@ -723,7 +731,7 @@ def run():
     ck = core.Check("C39", "model_checking", META["technique"])
     ck.merge(core.pmap(work, ["odict", "lodict", "modict", "oset"]))
     ck.assumptions = [
-        "keys {a,b,A} (modict {a,b}), values {1,2}; oset universe {a,b,c}; larger universes add no new code paths (no method depends on key count or value)",
+        "keys {a,b,A} (modict {a,b}), values {1,2} plus 0 and None on a/b; pop defaults 'D', 1, None, 0 (so a default can be the identical object that is stored); oset universe {a,b,c}; larger universes add no new code paths (no method depends on key count or value)",
         "lodict: 'every mapping operation' is read as every method that takes a key or a bulk argument, including the inherited pop/insert/create/sift/reorder",
         "modict: inherited odict operations (insert, sift, pickle, copy, reorder) must keep the key -> list-of-values shape; reorder may replace or append",
         "order of oset & and ^ results, repr text and return values of void mutators are not compared",
